@@ -16,6 +16,24 @@ CLAIMS = {
     note="Trusted: Lean kernel (axioms printed in evidence), harness AST→scope-tree dump and HIR walk, the generator's coverage of scope shapes. "
          "The typer's own scoping (LocalTypeEnv) is exercised only through the acceptance oracle.",
     technique="Lean 4 proof (structural induction over the nested AST) + differential correspondence with the Rust resolver"),
+ "C13": dict(
+    category="proof",
+    text="Lean theorems over a model of discover_packages / topo_sort_packages / package-id assignment / concatenation order in which every "
+         "iteration over a set of package names is a parameter: plan_enum_invariant (for all package layouts and all pairs of enumerations of "
+         "every import set and of the package map's keys: same discovered packages in the same order, same ids, same type-check order, same "
+         "concatenation order, or the same error), discover_enum_invariant, topo_enum_invariant, ids_enum_invariant, link_enum_invariant, "
+         "ids_injective, discover_mem_iff_reach, discover_fuel_suffices; for the code before the fix (HashSet) the counter-examples "
+         "hash_discovery_order_varies / hash_reported_error_varies and hash_only_link_order_varies. imports_ordered re-checks on every run "
+         "that PackageUnit.imports is an ordered set (table regenerated from packages.rs). Tie: the real discover_packages + "
+         "topo_sort_packages (+ ids of a whole compile) on generated package directories and on raw graphs (all 3-package graphs) equal "
+         "the model's output. Everything after discovery (typer, passes, printers, artefact hashes) is NOT modelled: it is covered by the "
+         "differential oracle only — K-fold recompilation in one process (fresh hash keys, permuted directory creation) and in child "
+         "processes, comparing Go text, every stage dump, diagnostics, interface/core bytes and hashes, link results byte for byte.",
+    design_ref="§5 C13, §C13 — as built",
+    note="Trusted: Lean kernel; tools/extract.py gen_package_ids; error-message classification and the project generator in harness/src/c13.rs; "
+         "SipHash-128 digests for the cross-process comparison; String order in Rust = Lean. tools/hashiter.py (source scan of HashMap/HashSet "
+         "iterations, heuristic) is auxiliary. Three defects found and fixed (known_findings.json).",
+    technique="Lean 4 proof (sorted-set uniqueness, DFS invariants) + differential correspondence + K-fold / cross-process byte comparison"),
  "C15": dict(
     category="proof",
     text="Lean theorems over a state machine of the artefact protocol (sources, .interface and .core files, ops edit/check/build/link/"
